@@ -72,11 +72,11 @@ def main():
     os.makedirs(f"{d}/repo/tests", exist_ok=True)
     os.makedirs(f"{d}/repo/target", exist_ok=True)  # some demos keep scratch files under the worktree's target/
     shutil.copy(demo, f"{d}/repo/tests/{demo_name}.rs")
-    rc1, out1 = sh(f"timeout -k 5 900 cargo test --offline --features levenshtein --test {demo_name} 2>&1 | tail -15", cwd=f"{d}/repo", env=env)
+    rc1, out1 = sh(f"timeout -k 5 900 cargo test --offline --features levenshtein --test {demo_name} -- --test-threads=1 2>&1 | tail -15", cwd=f"{d}/repo", env=env)
     fails_with = "test result: FAILED" in out1 or "panicked" in out1
     # demo without the patch
     sh(f"patch -p1 -R --no-backup-if-mismatch < {patch}", cwd=f"{d}/repo")
-    rc2, out2 = sh(f"timeout -k 5 900 cargo test --offline --features levenshtein --test {demo_name} 2>&1 | tail -15", cwd=f"{d}/repo", env=env)
+    rc2, out2 = sh(f"timeout -k 5 900 cargo test --offline --features levenshtein --test {demo_name} -- --test-threads=1 2>&1 | tail -15", cwd=f"{d}/repo", env=env)
     passes_without = "test result: ok" in out2 and "FAILED" not in out2
     meta["demo_fails_with_patch"] = fails_with
     meta["demo_passes_without_patch"] = passes_without
